@@ -42,7 +42,13 @@ def call(pts, ts, unit=1.0, day=(2020, 6, 15), coarse=False, scale=1.0):
     tol = 1e-9 if unit == 1.0 else 1e-6
     e["scale"] = "2^-14" if scale != 1.0 else "1"
     if unit == 1.0:
-        tr = tk.mk_track([p[0] * scale for p in pts], [p[1] * scale for p in pts], [float(k) * scale for k in range(len(pts))], ts)
+        # a quarter of the second-clocked tracks start 3 s before the end of a month or of a year (the elapsed time between
+        # two fixes does not depend on the calendar)
+        cal = (sum(ts) + len(pts) + int(pts[-1][1])) % 8
+        off, dday = (0, day) if cal > 1 else (43197, (2024, 1, 31) if cal == 0 else (2023, 12, 31))
+        e["clock"] = "%04d-%02d-%02d 12:00:00 + %d s" % (dday[0], dday[1], dday[2], off)
+        tr = tk.mk_track([p[0] * scale for p in pts], [p[1] * scale for p in pts], [float(k) * scale for k in range(len(pts))],
+                         [t + off for t in ts], day=dday)
     else:
         tr = tk.mk_track_ms([p[0] for p in pts], [p[1] for p in pts], [float(k) for k in range(len(pts))], [int(round(t * unit * 1000)) for t in ts], day=day)
 
